@@ -148,6 +148,22 @@ def gen_c09(rng, t, thorough):
                     ops.append("read/%s/b/%s" % (reg["name"], bytes(v).hex()))
                     react.append(chunked(rng, get_resp(reg["addr"], v), 3))
                 out.append(ACase("c09-values", ops, react, {"dev": dev}, cfg=rng.below(4)))
+            # a refusal (or an unknown flags byte) of ANOTHER register arrives first -- the late answer to an earlier
+            # request: it is not this register's error; the read goes on and returns the value that follows
+            ops, react = ["connect"], connect_react(dev)
+            for flag in (1, 2, 4, 0x08, 0xFF):
+                v = vals[rng.below(len(vals))] if reg["kind"] != 1 or True else vals[0]
+                if reg["kind"] == 1 and len(v) not in (1, 2, 4, 8):
+                    v = le(rng.below(65536), 2)
+                other = (reg["addr"] + 1 + rng.below(3)) % 65536
+                ops.append("read/%s/b/%s" % (reg["name"], bytes(v).hex()))
+                if rng.chance(1, 2):    # both in one burst (the stale frame is still buffered)
+                    react.append([ev_data(get_resp(other, rng.bytes(rng.below(3)), flag=flag) + get_resp(reg["addr"], v))])
+                    react.append([])
+                else:
+                    react.append([ev_data(get_resp(other, rng.bytes(rng.below(3)), flag=flag))])
+                    react.append([ev_data(get_resp(reg["addr"], v))])
+            out.append(ACase("c09-foreign-error", ops, react, {"dev": dev}, cfg=rng.below(4)))
             # transport and device errors: wrapped with the name, still matchable
             ops, react, tags = ["connect"], connect_react(dev), {"dev": dev}
             for flag, cls in ((1, "Eunknownid"), (2, "Enotsupported"), (4, "Eparameter")):
